@@ -647,7 +647,9 @@ FNS = ['f', 'g', 'LogInfo', 'op', 'm_1']
 PHRASES = ["'is owned by'", "'owns'", "''", "'a.b'", "'x\ny'", "'/* no */'"]
 INTS = ['0', '1', '42', '007', '2147483648', '9007199254740993', '18446744073709551616']
 REALS = ['1.5', '.5', '2.', '3.25', '10.0', '1e5', '2.E3', '7.5f']
-STRS = ['""', '"hi"', '"a b"', '"/* c */"', '"// d"', '"it\'s"', '"x=1;"']
+# OAL strings have no escape sequences: a backslash is an ordinary character, also directly before the closing quote
+STRS = ['""', '"hi"', '"a b"', '"/* c */"', '"// d"', '"it\'s"', '"x=1;"', '"C:\\temp\\"', '"\\"', '"a\\b"', '"\\\\"',
+        '"\\n"', '"100%\\"']
 
 
 def _kw_spelling(r, w):
@@ -1285,6 +1287,7 @@ _EDGE_TEXTS = [
     'x = notx;', 'x = not_emptyx;', 'x = not empty x;', 'x = not_ empty x;', 'x = selfx;', 'x = self.x;', 'x = param.x;',
     'x = paramx;', 'x = rcvd_evt.x;', 'x = cardinalityx;', 'x = aand b;', 'x = a orb;', 'returnx;', 'return;', 'returnx = 1;',
     # strings and phrases
+    'dir = "C:\\temp\\";', '::f(a: "\\", b: "\\");', 'x = "\\" + "\\"; y = "a\\";', 'x = "\\\\"; y = "\\";', "relate a to b across R1.'p\\';",
     'x = "a"b";', 'x = "a\nb";', 'x = "";', 'x = """";', 'x = "it\'s";', "relate a to b across R1.'x''y';",
     "relate a to b across R1.'';", "relate a to b across R1.'a\nb';", 'x = ";', "x = ';", 'x = "/* c */" + "// d";',
     # characters that are not in the alphabet, form feed / vertical tab between tokens
